@@ -628,7 +628,8 @@ Section MemoFacts.
   Qed.
 
   (* ---------- C20 / transparency ---------- *)
-  Hypothesis key_inj : forall a b, key_of a = key_of b -> a = b.
+  (* arguments with the same key are arguments the body does not tell apart (in particular: an injective key) *)
+  Hypothesis key_inj : forall a b, key_of a = key_of b -> f a = f b.
 
   (* an explicit key never coincides with an argument-derived one *)
   Definition opts_ok (o : opts) : Prop := match xkey o with None => True | Some x => forall a, key_of a <> x end.
@@ -640,7 +641,7 @@ Section MemoFacts.
   Definition EV_tr (o : opts) (a : A) (ev : event) : Prop := xkey o = None -> e_ret ev = f a.
 
   Lemma derived_key : forall a v, derived (key_of a) v -> v = f a.
-  Proof. intros a v (b & E & Hv). apply key_inj in E. subst. reflexivity. Qed.
+  Proof. intros a v (b & E & Hv). apply key_inj in E. subst. symmetry. exact E. Qed.
 
   Lemma tr_call : forall o st d a ev st1 d1, PI_tr o st -> PD_tr d -> icall o st d a = (ev, st1, d1) ->
     PI_tr o st1 /\ PD_tr d1 /\ EV_tr o a ev.
